@@ -2,7 +2,7 @@
 
 KINDS = ['pass', 'failout', 'failexc', 'allskip', 'partskip', 'expexc', 'disabled', 'comment',
          'failcompile', 'faildirective', 'warnfail', 'warnpass', 'expexconly',
-         'latecomment', 'latecommentfail', 'disabledlower', 'bracketskip']
+         'latecomment', 'latecommentfail', 'disabledlower', 'bracketskip', 'reqskip', 'skipthenrun', 'pytestskip']
 EXTRA_KINDS = ['ell', 'igws']      # outcome depends on a default directive (C15)
 
 # TR is replaced by a statement appending the doctest's name to a trace file
@@ -27,6 +27,12 @@ BODY = {
     'disabledlower': ['>>> # disable_doctest', 'TR', '>>> 1/0'],
     # a closed +SKIP ... -SKIP bracket around the only statement: nothing runs
     'bracketskip': ['>>> # xdoctest: +SKIP', 'TR', '>>> 1/0', '>>> # xdoctest: -SKIP'],
+    # everything behind an unmet *block* requirement that is never lifted
+    'reqskip': ['>>> # xdoctest: +REQUIRES(module:xv_no_such_module_10)', 'TR', '>>> 1/0'],
+    # first line a block +SKIP, switched off again later: the rest runs
+    'skipthenrun': ['>>> # xdoctest: +SKIP', '>>> 1/0', '>>> # xdoctest: -SKIP', 'TR', '>>> print("a")', 'a'],
+    # the doctest ends itself with pytest.skip(): a graceful early exit, not a failure
+    'pytestskip': ['TR', '>>> import pytest', '>>> pytest.skip("enough")', '>>> 1/0'],
     # a recorded run-time warning together with a failure / a pass
     'warnfail': ['TR', '>>> import warnings', '>>> warnings.warn("w-fail")', '>>> 1/0'],
     'warnpass': ['TR', '>>> import warnings', '>>> warnings.warn("w-pass")', '>>> print("a")', 'a'],
@@ -35,7 +41,7 @@ BODY = {
 }
 DISABLED = ('disabled', 'disabledlower')
 RUNS_TR = {'pass', 'failout', 'failexc', 'partskip', 'expexc', 'ell', 'igws', 'warnfail', 'warnpass', 'latecomment',
-           'latecommentfail'}
+           'latecommentfail', 'skipthenrun', 'pytestskip'}
 
 
 def fname(j):
@@ -52,8 +58,9 @@ def outcome(kind, opt=None, named=False):
         # consulted: it fails under every default option (C09 asks for exactly that failure)
         return 'failed'
     if opt == '+SKIP':
-        return 'skipped'
-    if kind in ('allskip', 'comment', 'bracketskip'):
+        # the default option behaves like a leading block directive: a doctest that switches SKIP off itself runs
+        return 'passed' if kind == 'skipthenrun' else 'skipped'
+    if kind in ('allskip', 'comment', 'bracketskip', 'reqskip'):
         return 'skipped'
     if kind in ('failout', 'failexc', 'disabled', 'disabledlower', 'failcompile', 'faildirective', 'warnfail',
                 'latecommentfail'):
@@ -68,7 +75,7 @@ def outcome(kind, opt=None, named=False):
 def traces(kind, opt=None, named=False):
     """does the doctest execute its trace statement"""
     if opt == '+SKIP':
-        return False
+        return kind == 'skipthenrun'
     if kind in DISABLED:
         return named
     return kind in RUNS_TR
